@@ -26,15 +26,16 @@ def jobs(tier):
   return [
       Job("lineset", M, "h_lineset", dict(C03_LS_OPS=3, C03_MAXL=4), shards=97, timeout=t),
       Job("director-history", M, "h_director",
-          dict(C03_NPRIOR=1, C03_MAXL=4, C03_MAXFUN=0, C03_PRIOR_CALL=1, C03_EXTRA_CALL=1, C03_QOPS=1, C03_NDNAMES=4, C03_PRIOR_KINDS=4),
+          dict(C03_NPRIOR=1, C03_MAXL=4, C03_MAXFUN=0, C03_PRIOR_CALL=0, C03_EXTRA_CALL=1, C03_QOPS=1, C03_NDNAMES=3, C03_PRIOR_KINDS=4),
           shards=509, timeout=t),
       Job("director-functions", M, "h_director",
-          dict(C03_NPRIOR=0, C03_MAXL=5, C03_MAXFUN=2, C03_QOPS=0, C03_NDNAMES=3), shards=251, timeout=t),
-      Job("source", M, "h_source", dict(C03_NTEMPL=6, C03_SRC_PRIOR=1), shards=509, timeout=t,
+          dict(C03_NPRIOR=0, C03_MAXL=4, C03_MAXFUN=2, C03_QOPS=0, C03_NDNAMES=3), shards=251, timeout=t),
+      Job("source-all-templates", M, "h_source", dict(C03_NTEMPL=6, C03_SRC_PRIOR=0), shards=127, timeout=t),
+      Job("source", M, "h_source", dict(C03_NTEMPL=2, C03_SRC_PRIOR=1), shards=509, timeout=t,
           note="Directors built from source text through the real directors.parser; prior + appended directive"),
-      Job("director-all", M, "h_director",
-          dict(C03_NPRIOR=1, C03_MAXL=3, C03_MAXFUN=1, C03_PRIOR_CALL=0, C03_EXTRA_CALL=1, C03_QOPS=0, C03_NDNAMES=3, C03_PRIOR_KINDS=2),
-          shards=251, timeout=t, note="prior directive and function ranges together"),
+      Job("director-nested", M, "h_director",
+          dict(C03_NPRIOR=0, C03_MAXL=5, C03_MINFUN=2, C03_MAXFUN=2, C03_QOPS=2, C03_ONLY_BRT=1, C03_EXTRA_CALL=0, C03_NDNAMES=3),
+          shards=31, timeout=t),
   ]
 
 
